@@ -29,6 +29,8 @@ type MRunner struct {
 	Flags [NSlots]int
 	// CursorOpen: after WriteAt the references disagree on where the cursor is
 	CursorOpen [NSlots]bool
+	// Streaming: the slot may hold a half-consumed read stream (finding F-11)
+	Streaming [NSlots]bool
 	// Links: link path -> target path of every symlink created so far (generation only)
 	Links map[string]string
 }
@@ -36,7 +38,9 @@ type MRunner struct {
 // TouchesLink reports whether p is, contains or lies on the path of a symlink or its target.
 func (r *MRunner) TouchesLink(p string) bool {
 	p = model.Clean(p)
-	in := func(a, b string) bool { return a == b || (len(a) > len(b) && a[:len(b)] == b && (b == "/" || a[len(b)] == '/')) }
+	in := func(a, b string) bool {
+		return a == b || (len(a) > len(b) && a[:len(b)] == b && (b == "/" || a[len(b)] == '/'))
+	}
 	for l, t := range r.Links {
 		if in(l, p) || in(t, p) || in(p, l) || in(p, t) {
 			return true
@@ -198,9 +202,11 @@ func (r *MRunner) Do(s Step) (res MRes) {
 			}
 			sort.Strings(res.Names)
 		}
-	case "reopen":
+	case "reopen", "rebuild":
 		for i := range r.Slots {
 			r.Slots[i] = nil
+			r.CursorOpen[i] = false
+			r.Streaming[i] = false
 		}
 	case "symlink":
 		res.DontCare = true
